@@ -719,9 +719,30 @@ def res_rules(ctx):
             elif norm_text(n.value) == '%s.columns.difference(RPH_COLS)' % state:
                 O = n.targets[0].id
     rets = [n for n in walk_no_nested_funcs(f.node) if isinstance(n, ast.Return)]
-    ok = len(rets) == 1 and isinstance(rets[0].value, ast.Subscript) and R is not None and \
-        norm_text(rets[0].value.value) == R and \
-        norm_text(rets[0].value.slice) == '%s.columns' % state
+    ctx.need(len(rets) == 1 and R is not None, 'resample_state: result table / single return not '
+                                               'found')
+    rv = rets[0].value
+    if isinstance(rv, ast.Name) and rv.id != R:
+        ds = [n for n in walk_no_nested_funcs(f.node) if isinstance(n, ast.Assign) and
+              len(n.targets) == 1 and isinstance(n.targets[0], ast.Name) and
+              n.targets[0].id == rv.id]
+        if len(ds) == 1:
+            rv = ds[0].value
+    colsel = '%s.columns' % state
+    # spellings of "the result with the columns in the order of the input"
+    reordered = (isinstance(rv, ast.Subscript) and norm_text(rv.value) == R and
+                 norm_text(rv.slice) == colsel) or \
+        (isinstance(rv, ast.Subscript) and norm_text(rv.value) == R + '.loc' and
+         norm_text(rv.slice) == ':, ' + colsel) or \
+        (isinstance(rv, ast.Call) and norm_text(rv.func) == R + '.reindex' and not rv.args and
+         [k.arg for k in rv.keywords] == ['columns'] and
+         norm_text(rv.keywords[0].value) == colsel)
+    # recognisably something else: the table as assembled, or another selection of it
+    different = (isinstance(rv, ast.Name) and rv.id == R) or \
+        (isinstance(rv, ast.Subscript) and norm_text(rv.value) in (R, R + '.loc'))
+    ctx.need(reordered or different, 'resample_state: the returned expression `%s` is not read'
+             % norm_text(rv)[:60])
+    ok = reordered
     ctx.ob('RES-COLS', ok, None, 'result table (indexed by the clipped times) returned as '
            'result[state.columns]', f=f, node=(rets[0] if rets else f.node), key='cols',
            why='result is not re-ordered by state.columns: the column order of the input is lost')
